@@ -70,6 +70,7 @@ type c15Case struct {
 	Server   bool
 	Stale    bool // after every NextReader, read the previous message's reader again
 	ReadMsg  bool // use ReadMessage instead of NextReader + Read
+	EndData  bool // the stream reports its end (EOF or the injected error) together with its last bytes
 }
 
 func (c c15Case) String() string {
@@ -79,7 +80,7 @@ func (c c15Case) String() string {
 		s = s[:48]
 		suffix = fmt.Sprintf("…(%d bytes)", len(c.Stream))
 	}
-	return fmt.Sprintf("{stream=% x%s tailErr=%v limit=%d readBuf=%d frag=%v consume=%v readSize=%v stale=%v readMessage=%v}", s, suffix, c.TailErr, c.Limit, c.ReadBuf, c.Frag, c.Consume, c.ReadSize, c.Stale, c.ReadMsg)
+	return fmt.Sprintf("{stream=% x%s tailErr=%v limit=%d readBuf=%d frag=%v consume=%v readSize=%v stale=%v readMessage=%v endWithData=%v}", s, suffix, c.TailErr, c.Limit, c.ReadBuf, c.Frag, c.Consume, c.ReadSize, c.Stale, c.ReadMsg, c.EndData)
 }
 
 var errTail = errors.New("injected stream failure")
@@ -99,6 +100,7 @@ func runC15(cs c15Case, wts *wt.Server) (viol string, stats map[string]bool) {
 	}()
 	pipe := newHalfPipe()
 	pipe.frag = cs.Frag
+	pipe.endWithData = cs.EndData
 	pipe.Write(cs.Stream)
 	if cs.TailErr {
 		pipe.failReadAt = int64(len(cs.Stream))
@@ -140,6 +142,16 @@ func runC15(cs c15Case, wts *wt.Server) (viol string, stats map[string]bool) {
 				stats["ReadMessage"] = true
 				if uint64(len(data)) > f.declared || len(data) > len(f.avail) {
 					return fmt.Sprintf("ReadMessage #%d returned %d bytes; header declared %d, stream supplied %d", i, len(data), f.declared, len(f.avail)), stats
+				}
+				if f.complete && cs.TailErr && cs.EndData && i == len(frames)-1 && errors.Is(err, errTail) {
+					// the stream failed while handing out the last bytes of this message: the failure may be
+					// reported right away (as gorilla/websocket does); nothing but the stream's own bytes is returned
+					if !bytes.Equal(data, f.avail[:len(data)]) {
+						return fmt.Sprintf("ReadMessage #%d: returned bytes differ from the stream's", i), stats
+					}
+					stats["stream-failure-reported-with-last-bytes"] = true
+					firstErr = err
+					break
 				}
 				if f.complete {
 					if err != nil || !bytes.Equal(data, f.avail) || (mt == webtrans.BinaryMessage) != f.bin {
@@ -283,6 +295,12 @@ func runC15(cs c15Case, wts *wt.Server) (viol string, stats map[string]bool) {
 				if rerr == io.EOF && len(got) != len(f.avail) {
 					return fmt.Sprintf("message #%d: end of message after %d of %d bytes", i, len(got), len(f.avail)), stats
 				}
+				if cs.TailErr && cs.EndData && i == len(frames)-1 && errors.Is(rerr, errTail) && len(got) == len(f.avail) {
+					// the stream failed while handing out the last bytes of this message (see above)
+					stats["stream-failure-reported-with-last-bytes"] = true
+					firstErr = rerr
+					break
+				}
 				if rerr != io.EOF {
 					return fmt.Sprintf("message #%d (complete, %d bytes): read error %v after %d bytes", i, len(f.avail), rerr, len(got)), stats
 				}
@@ -391,7 +409,7 @@ func genC15Stream(rt *rapid.T) ([]byte, string) {
 
 func TestC15ReaderTotal(t *testing.T) {
 	col := NewCollector("TestC15ReaderTotal",
-		"rapid: byte streams (raw header-biased bytes / valid reference streams / truncated / bit-flipped / hostile 64-bit length incl. 2^63 and 2^64-1 / garbage tail) x read limit {none, 1, around a frame length} x read buffer x read fragmentation x per-message consumption (to the end, k bytes then abandon) x stream ending in EOF or an injected error; oracle: an independent left-to-right scan of the same bytes predicts every NextReader/Read outcome (kind, bytes, end-of-message, unexpected end, limit error + session close capsule, sticky error), no panic. non-trivial: the stream has >=1 complete frame followed by a fault, or a 64-bit length >= 2^31, or a limit violation").Use(t)
+		"rapid: byte streams (raw header-biased bytes / valid reference streams / truncated / bit-flipped / hostile 64-bit length incl. 2^63 and 2^64-1 / garbage tail) x read limit {none, 1, around a frame length} x read buffer x read fragmentation x per-message consumption (to the end, k bytes then abandon) x stream ending in EOF or an injected error, reported after or together with the last bytes; oracle: an independent left-to-right scan of the same bytes predicts every NextReader/Read outcome (kind, bytes, end-of-message, unexpected end, limit error + session close capsule, sticky error), no panic. non-trivial: the stream has >=1 complete frame followed by a fault, or a 64-bit length >= 2^31, or a limit violation").Use(t)
 	wts := NewWTServer()
 	rapid.Check(t, func(rt *rapid.T) {
 		stream, kind := genC15Stream(rt)
@@ -423,6 +441,7 @@ func TestC15ReaderTotal(t *testing.T) {
 		cs.Server = rapid.Bool().Draw(rt, "server")
 		cs.Stale = rapid.Bool().Draw(rt, "staleReads")
 		cs.ReadMsg = rapid.IntRange(0, 3).Draw(rt, "readMessage") == 0
+		cs.EndData = rapid.IntRange(0, 2).Draw(rt, "endWithData") == 0
 		journal("C15 %v", cs)
 		viol, stats := runC15(cs, wts)
 		completeBeforeFault := false
@@ -444,18 +463,24 @@ func TestC15ReaderTotal(t *testing.T) {
 		if cs.TailErr {
 			classes = append(classes, "tail-error")
 		}
+		if cs.EndData {
+			classes = append(classes, "end-reported-with-last-bytes")
+			if stats["truncated-payload"] {
+				classes = append(classes, "truncated-payload+end-with-last-bytes")
+			}
+		}
 		col.Case(cs.String(), completeBeforeFault || big || stats["over-limit"], map[string]any{"case": cs.String(), "kind": kind, "frames": len(frames)}, classes...)
 		if viol != "" {
 			rt.Fatalf("%s\ncase: %v", viol, cs)
 		}
 	})
-	col.RequireClasses(t, "over-limit", "limit-closed-session", "truncated-payload", "truncated-header", "abandoned", "len>=2^63", "complete-message", "stale-reader-read", "ReadMessage")
+	col.RequireClasses(t, "over-limit", "limit-closed-session", "truncated-payload", "truncated-header", "abandoned", "len>=2^63", "complete-message", "stale-reader-read", "ReadMessage", "truncated-payload+end-with-last-bytes")
 }
 
 // Truncation at *every* offset of a generated valid stream.
 func TestC15TruncateEverywhere(t *testing.T) {
 	col := NewCollector("TestC15TruncateEverywhere",
-		"rapid draws a valid stream of 1-5 frames (lengths 0..300, all length forms) and the check runs the reader on every prefix of it (exhaustive over offsets for that stream), with EOF and with an injected error as the stream end; oracle as TestC15ReaderTotal. one evaluation = one (stream, offset, ending); non-trivial: offset falls strictly inside a frame").Use(t)
+		"rapid draws a valid stream of 1-5 frames (lengths 0..300, all length forms) and the check runs the reader on every prefix of it (exhaustive over offsets for that stream), with EOF and with an injected error as the stream end, each reported after or together with the last bytes; oracle as TestC15ReaderTotal. one evaluation = one (stream, offset, ending); non-trivial: offset falls strictly inside a frame").Use(t)
 	rapid.Check(t, func(rt *rapid.T) {
 		nf := rapid.IntRange(1, 5).Draw(rt, "nframes")
 		var stream []byte
@@ -469,8 +494,9 @@ func TestC15TruncateEverywhere(t *testing.T) {
 		frag := rapid.SliceOfN(rapid.IntRange(1, 12), 0, 2).Draw(rt, "frag")
 		rbs := rapid.SampledFrom([]int{0, 16, 64}).Draw(rt, "rbs")
 		for cut := 0; cut <= len(stream); cut++ {
-			for _, tailErr := range []bool{false, true} {
-				cs := c15Case{Stream: stream[:cut], TailErr: tailErr, ReadBuf: rbs, Frag: frag, ReadSize: []int{64}}
+			for _, ending := range []int{0, 1, 2, 3} {
+				tailErr := ending&1 == 1
+				cs := c15Case{Stream: stream[:cut], TailErr: tailErr, ReadBuf: rbs, Frag: frag, ReadSize: []int{64}, EndData: ending&2 != 0}
 				viol, _ := runC15(cs, nil)
 				inside := true
 				for _, b := range bounds {
@@ -478,7 +504,7 @@ func TestC15TruncateEverywhere(t *testing.T) {
 						inside = false
 					}
 				}
-				col.Case(fmt.Sprintf("%x|%d|%v|%v|%d", stream, cut, tailErr, frag, rbs), inside && cut > 0, map[string]any{"stream_len": len(stream), "cut": cut, "tailErr": tailErr}, fmt.Sprintf("inside-frame=%v", inside))
+				col.Case(fmt.Sprintf("%x|%d|%v|%v|%d", stream, cut, ending, frag, rbs), inside && cut > 0, map[string]any{"stream_len": len(stream), "cut": cut, "tailErr": tailErr, "endWithData": cs.EndData}, fmt.Sprintf("inside-frame=%v", inside))
 				if viol != "" {
 					rt.Fatalf("%s\ncase: %v", viol, cs)
 				}
